@@ -171,6 +171,7 @@ def validate_chunk(c, k, evs, what, timeout):
         for e in evs:
             f.write(json.dumps(e) + "\n")
     res = vlib.tlc(SPEC_DIR, "MempoolTrace", "MempoolTrace.cfg", wd, workers=1, timeout=timeout, heap="3g",
+                   java_opts=["-Dtlc2.tool.queue.IStateQueue=StateDeque"],      # depth-first: one witness is enough
                    files={"trace.ndjson": path})
     m = None
     for m in re.finditer(r'"TRACE-PROGRESS", (\d+), (\d+)', res.out):
